@@ -18,6 +18,17 @@ static ADDR: [AtomicUsize; MAXA] = [Z; MAXA];
 static ORIG_CLONE: AtomicUsize = AtomicUsize::new(0);
 static ORIG_DROP: AtomicUsize = AtomicUsize::new(0);
 static BAD: AtomicUsize = AtomicUsize::new(0);
+/// C16: when set, Clone and Drop are performed by the C driver through the published layout
+pub static C_MODE: AtomicUsize = AtomicUsize::new(0);
+
+unsafe fn c_clone_of<T>(h: &T) -> T {
+    let r = cview::cv_arc_clone(h as *const T as *const std::ffi::c_void);
+    std::mem::transmute_copy::<cview::RawArc, T>(&r)
+}
+unsafe fn c_release<T>(mut h: T) {
+    cview::cv_arc_release(&mut h as *mut T as *mut std::ffi::c_void);
+    std::mem::forget(h); // the C side has released it and cleared the fields
+}
 
 pub struct P {
     alloc: usize,
@@ -189,12 +200,15 @@ fn exec(sh: &Shared, e: &Value) -> Result<(), String> {
         "Clone" => {
             let d = e["d"].as_u64().unwrap() as usize - 1;
             let h = take(s).ok_or("clone of free slot")?;
-            let c = ledger::track(|| match &h {
-                H::CArc(x) => H::CArc(x.clone()),
-                H::Some(x) => H::Some(x.clone()),
-                H::OCArc(x) => H::OCArc(x.clone()),
-                H::OSome(x) => H::OSome(x.clone()),
-                _ => unreachable!(),
+            let cm = C_MODE.load(SeqCst) != 0;
+            let c = ledger::track(|| unsafe {
+                match &h {
+                    H::CArc(x) => H::CArc(if cm { c_clone_of(x) } else { x.clone() }),
+                    H::Some(x) => H::Some(if cm { c_clone_of(x) } else { x.clone() }),
+                    H::OCArc(x) => H::OCArc(if cm { c_clone_of(x) } else { x.clone() }),
+                    H::OSome(x) => H::OSome(if cm { c_clone_of(x) } else { x.clone() }),
+                    _ => unreachable!(),
+                }
             });
             put(s, h);
             put(d, c);
@@ -239,7 +253,19 @@ fn exec(sh: &Shared, e: &Value) -> Result<(), String> {
         }
         "Drop" => {
             let h = take(s).ok_or("drop of free slot")?;
-            ledger::track(|| drop(h));
+            if C_MODE.load(SeqCst) != 0 {
+                ledger::track(|| unsafe {
+                    match h {
+                        H::CArc(x) => c_release(x),
+                        H::Some(x) => c_release(x),
+                        H::OCArc(x) => c_release(x),
+                        H::OSome(x) => c_release(x),
+                        other => drop(other),
+                    }
+                });
+            } else {
+                ledger::track(|| drop(h));
+            }
         }
         "Give" => {}
         _ => return Err(format!("unknown op {}", op)),
@@ -544,6 +570,9 @@ pub fn main(args: &[String]) {
     let path = args.get(1).cloned().unwrap_or_default();
     let geti = |f: &str, d: usize| vkit::arg_after(args, f).map(|s| s.parse().unwrap()).unwrap_or(d);
     let (nslots, nalloc, nthreads) = (geti("--slots", 3), geti("--allocs", 2), geti("--threads", 2));
+    if args.iter().any(|a| a == "--c") {
+        C_MODE.store(1, SeqCst);
+    }
     match mode {
         "replay" => {
             let lines = vkit::read_lines(&path);
